@@ -559,6 +559,11 @@ fn known_region(
                 continue;
             }
         }
+        if region["when"].as_str() == Some("multiline_quoted_string")
+            && !(code.contains("\\\n") || code.contains("\\\r\n") || code.contains("\\z\n") || code.contains("\\z\r\n"))
+        {
+            continue;
+        }
         if region["when"].as_str() == Some("method_definition") && !has_method_definition(code) {
             continue;
         }
